@@ -95,6 +95,8 @@ type c18World struct {
 	// state the one of the client state's own header? (an inconsistent pair is a governance input error the clients do
 	// not detect; the oracle's "valid header" is relative to a genuine trusted state)
 	consistent map[string]bool
+	bscG       *c18BscChain // generated chain with rotating validator sets (c18_bsc_test.go)
+	tmR        *c18TmrChain // synthetic Tendermint chain whose validator set changes with every block (c18_tm_test.go)
 	// per installed TSS client: the TSS address it must have BY CONSTRUCTION (the proposal's, then the one of every
 	// accepted key-rotation header) — independent of what the store says
 	tssAddr map[string]string
@@ -145,6 +147,8 @@ func newC18World(t *testing.T) *c18World {
 	c18ReadJSON(t, filepath.Join(dir, "x/xibc/clients/light-clients/bsc/types/testdata/update_headers.json"), &w.bscUpd)
 	c18ReadJSON(t, filepath.Join(dir, "x/xibc/clients/light-clients/eth/types/testdata/update_headers.json"), &w.ethHdr)
 
+	w.bscG = newC18BscChain()
+	w.tmR = newC18TmrChain(w.coord.CurrentTime.Add(-10 * time.Minute).Truncate(time.Second))
 	w.addr["r0"] = w.chainA.SenderAcc.String()
 	w.addr["r1"] = sdk.AccAddress(sha256.New().Sum([]byte("r1"))[:20]).String()
 	w.addr["tssA"] = sdk.AccAddress(sha256.New().Sum([]byte("tssA"))[:20]).String()
@@ -371,21 +375,25 @@ func (w *c18World) describe(cs exported.ClientState, ks exported.ConsensusState)
 		}
 		pan, _ := safely(func() { err = cs.Initialize(sctx, w.cdc, st, useKs) })
 		d.initOk = !pan && err == nil
-		if d.initOk {
-			m := c18StoreMap(st)
-			if d.ty == "bsc" {
-				d.x1 = m["sg:"+c18H(d.latest)]
-				d.x2 = m["pv"]
-			} else {
-				for k, v := range m {
-					if strings.HasPrefix(k, "ei:") {
-						d.x1, d.x3 = strings.Split(k, ":")[1], v
-					}
-					if strings.HasPrefix(k, "er:") {
-						d.x2 = strings.Split(k, ":")[1]
-					}
-				}
+		// what Initialize of this type has to write is stated BY CONSTRUCTION (own seal recovery, own parsing of the
+		// extra data, the header's exported hash), never read back from the code under test
+		switch c := cs.(type) {
+		case *bsctypes.ClientState:
+			if a, ok := c18BscRecover(&c.Header, c.ChainId); ok {
+				d.x1 = hex.EncodeToString(a.Bytes())
 			}
+			if vs, ok := c18BscAnnounced(c.Header.Extra); ok {
+				d.x2 = c18Dig(w.cdc.MustMarshal(&bsctypes.ValidatorSet{Validators: vs}))
+			}
+		case *ethtypes.ClientState:
+			hd := c.Header
+			safely(func() {
+				d.x1 = hex.EncodeToString(hd.Hash().Bytes())
+				d.x2 = hex.EncodeToString(hd.ToEthHeader().Root.Bytes())
+				if bz, err := w.cdc.MarshalInterface(&hd); err == nil {
+					d.x3 = c18Dig(bz)
+				}
+			})
 		}
 	}
 	return d
@@ -435,6 +443,20 @@ func (w *c18World) realiseCS(desc string) exported.ClientState {
 		}
 		return tmtypes.NewClientState(w.chainB.ChainID, tmtypes.DefaultTrustLevel, tp, xibctesting.UnbondingPeriod,
 			xibctesting.MaxClockDrift, hd.GetHeight().(clienttypes.Height), commitmenttypes.GetSDKSpecs(), xibctesting.Prefix, delay)
+	case "tmr0", "tmr1": // synthetic chain, validator set changes with every block
+		hd := w.tmR.hdr[c18TmrFirst+3*int64(desc[3]-'0')]
+		return tmtypes.NewClientState(c18TmrChainID, tmtypes.DefaultTrustLevel, xibctesting.TrustingPeriod, xibctesting.UnbondingPeriod,
+			xibctesting.MaxClockDrift, hd.GetHeight().(clienttypes.Height), commitmenttypes.GetSDKSpecs(), xibctesting.Prefix, 0)
+	case "bscr0", "bscr1", "bscr2":
+		return w.bscG.state(20 + 10*uint64(desc[4]-'0'))
+	case "bscr!stale": // the announced list of the installed header was tampered with after sealing: seal no longer matches
+		st := w.bscG.state(20)
+		h := st.Header
+		ex := append([]byte{}, h.Extra...)
+		ex[40] ^= 0x01
+		h.Extra = ex
+		st.Header = h
+		return st
 	case "bsc0":
 		return w.bscState(w.bscGen.ToHeader())
 	case "bsc1":
@@ -492,6 +514,10 @@ func (w *c18World) realiseKS(desc string) exported.ConsensusState {
 			w.tmSnap = &hd
 		}
 		return w.tmSnap.ConsensusState()
+	case "tmr0", "tmr1":
+		return w.tmR.hdr[c18TmrFirst+3*int64(desc[3]-'0')].ConsensusState()
+	case "bscr0", "bscr1", "bscr2":
+		return w.bscG.cons(20 + 10*uint64(desc[4]-'0'))
 	case "bsc0", "bsc1":
 		h := w.bscHeader(int(desc[3] - '0'))
 		return &bsctypes.ConsensusState{Timestamp: h.Time, Height: clienttypes.NewHeight(0, h.Number.Uint64()), Root: h.Root[:]}
@@ -528,6 +554,10 @@ func (w *c18World) baseTime(base string) time.Time {
 	switch base {
 	case "now":
 		return w.now
+	case "tmr0", "tmr1":
+		return w.tmR.hdr[c18TmrFirst+3*int64(base[3]-'0')].GetTime()
+	case "bscr0", "bscr1", "bscr2":
+		return time.Unix(int64(w.bscG.hdr[20+10*uint64(base[4]-'0')].Time), 0)
 	case "bsc0":
 		return time.Unix(int64(w.bscGen.Time), 0)
 	case "bsc1":
@@ -557,7 +587,7 @@ func c18NameValid(n string) bool {
 }
 
 // is ks the consensus state of cs's own header (same root and timestamp)?
-func c18Consistent(cs exported.ClientState, ks exported.ConsensusState) bool {
+func (w *c18World) c18Consistent(cs exported.ClientState, ks exported.ConsensusState) bool {
 	switch c := cs.(type) {
 	case *bsctypes.ClientState:
 		k, ok := ks.(*bsctypes.ConsensusState)
@@ -566,8 +596,18 @@ func c18Consistent(cs exported.ClientState, ks exported.ConsensusState) bool {
 		k, ok := ks.(*ethtypes.ConsensusState)
 		return ok && string(k.Root) == string(c.Header.Root) && k.Timestamp == c.Header.Time
 	case *tmtypes.ClientState:
-		_, ok := ks.(*tmtypes.ConsensusState)
-		return ok // the tm descriptors always pair the client state with the consensus state of the same snapshot
+		k, ok := ks.(*tmtypes.ConsensusState)
+		if !ok {
+			return false
+		}
+		// the consensus state of the header the client state points at, on the chain the client state names
+		var hd *tmtypes.Header
+		if c.ChainId == c18TmrChainID {
+			hd = w.tmR.hdr[int64(c.LatestHeight.RevisionHeight)]
+		} else if w.tmSnap != nil && w.tmSnap.GetHeight().EQ(c.LatestHeight) {
+			hd = w.tmSnap
+		}
+		return hd != nil && string(k.Root) == string(hd.Header.GetAppHash()) && string(k.NextValidatorsHash) == string(hd.Header.NextValidatorsHash)
 	}
 	return true
 }
@@ -823,7 +863,7 @@ func (w *c18World) proposal(r *Rec, f []string) (string, string) {
 		}
 	default:
 		r.Nontrivial(strings.Join(w.hist, ";"))
-		w.consistent[name] = c18Consistent(cs, ks)
+		w.consistent[name] = w.c18Consistent(cs, ks)
 		if !w.consistent[name] {
 			r.Count("installed.inconsistent-pair")
 		}
@@ -866,6 +906,28 @@ func (w *c18World) proposal(r *Rec, f []string) (string, string) {
 		if m["cs"] != d.dig || (d.ty != "tss" && (!hasK || gotK != wantK)) {
 			w.find(r, "C18:installed-state-differs:"+pair, "stored client / consensus state is not the proposal's", fmt.Sprintf("cs=%s c=%s", m["cs"], gotK), fmt.Sprintf("cs=%s c=%s", d.dig, wantK))
 		}
+		// the type-specific auxiliary records right after the install, against what they must be BY CONSTRUCTION
+		switch d.ty {
+		case "bsc":
+			sg := 0
+			for key := range m {
+				if strings.HasPrefix(key, "sg:") {
+					sg++
+				}
+			}
+			if d.x2 == "" || m["pv"] != d.x2 || m["sg:"+c18H(d.latest)] != d.x1 || sg != 1 {
+				w.find(r, "C18:bsc-aux-records-differ:"+kind, fmt.Sprintf("after the accepted %s the BSC pending validator set must be the list announced in the installed epoch header's extra data and the only recent signer the sealer of that header: stored pv=%s sg=%s (%d signer records)", kind, m["pv"], m["sg:"+c18H(d.latest)], sg), "pv="+m["pv"]+" sg="+m["sg:"+c18H(d.latest)], "pv="+d.x2+" sg="+d.x1)
+			}
+		case "eth":
+			hn := strconv.FormatUint(d.latest.GetRevisionHeight(), 10)
+			if m["ei:"+d.x1+":"+hn] != d.x3 || m["er:"+d.x2+":"+hn] != d.x1 {
+				w.find(r, "C18:eth-aux-records-differ:"+kind, "after the accepted "+kind+" the ETH header index / root-main records are not those of the installed header", after, "ei:"+d.x1+":"+hn+"="+d.x3+" er:"+d.x2+":"+hn+"="+d.x1)
+			}
+		case "tm":
+			if m["pt:"+c18H(d.latest)] != strconv.FormatInt(w.now.UnixNano(), 10) || m["it:"+c18H(d.latest)] != "k" {
+				w.find(r, "C18:tm-aux-records-differ:"+kind, "after the accepted "+kind+" the processed time at the latest height is not the block time / the iteration key is wrong", after, "pt="+strconv.FormatInt(w.now.UnixNano(), 10))
+			}
+		}
 		if !c18Initialised(d.ty, d.latest, m) {
 			w.find(r, "C18:not-initialised-for-new-type:"+pair, "accepted "+kind+" but the metadata the new client type needs at its latest height is missing", after, "InitialisedFor "+d.ty)
 		}
@@ -896,6 +958,9 @@ func (w *c18World) verify(r *Rec, f []string) (string, string) {
 	ptxt := "-"
 	switch ty {
 	case "tm":
+		if cs.(*tmtypes.ClientState).ChainId == c18TmrChainID {
+			return "noop", "skip" // the synthetic chain has no application state to prove against
+		}
 		qh := h.RevisionHeight
 		if f[2] == "hi" {
 			h.RevisionHeight++
@@ -977,6 +1042,8 @@ func (w *c18World) update(r *Rec, f []string) (string, string) {
 	}
 	var header exported.Header
 	vbc := false // valid by construction: the genuine next header for the installed client
+	tmRotation := false  // … of the synthetic Tendermint chain: signed by a validator set other than the previous header's
+	bscNewcomer := false // … sealed by a validator that joined with the set announced at the install / last epoch
 	switch {
 	case strings.HasPrefix(how, "tss"):
 		a := w.addr["tss"+strings.TrimPrefix(strings.TrimPrefix(how, "tss:"), "tss!")]
@@ -995,13 +1062,27 @@ func (w *c18World) update(r *Rec, f []string) (string, string) {
 	default: // next | stale | forged : by the installed client's type
 		switch ty {
 		case "tm":
-			if how != "stale" {
+			synthetic := cs.(*tmtypes.ClientState).ChainId == c18TmrChainID
+			if how != "stale" && !synthetic {
 				w.coord.CommitBlock(w.chainB)
 			}
 			trusted := cs.GetLatestHeight().(clienttypes.Height)
 			var hd *tmtypes.Header
 			var err error
-			pan, _ := safely(func() { hd, err = w.chainA.ConstructUpdateTMClientHeaderWithTrustedHeight(w.chainB, n, trusted) })
+			if synthetic { // the next header of the chain whose validator set changes with every block
+				nh := int64(trusted.RevisionHeight) + 1
+				if how == "stale" {
+					nh--
+				}
+				hd = w.tmR.update(nh, trusted)
+				if hd != nil && how == "next" {
+					tmRotation = true
+				}
+			}
+			pan := false
+			if !synthetic {
+				pan, _ = safely(func() { hd, err = w.chainA.ConstructUpdateTMClientHeaderWithTrustedHeight(w.chainB, n, trusted) })
+			}
 			if pan || err != nil || hd == nil {
 				x := *w.chainB.LastHeader
 				hd = &x
@@ -1022,9 +1103,31 @@ func (w *c18World) update(r *Rec, f []string) (string, string) {
 			}
 			header = hd
 			ht := hd.GetHeight().(clienttypes.Height)
-			vbc = how == "next" && ht.GT(trusted) && hd.GetTime().Before(w.now.Add(xibctesting.MaxClockDrift)) /* light.Verify: header time must be strictly before now + drift */
+			vbc = how == "next" && (!synthetic || tmRotation) && ht.GT(trusted) && hd.GetTime().Before(w.now.Add(xibctesting.MaxClockDrift)) /* light.Verify: header time must be strictly before now + drift */
 		case "bsc":
 			num := cs.GetLatestHeight().GetRevisionHeight()
+			if cs.(*bsctypes.ClientState).ChainId == c18BscChainID { // the generated chain with rotating validator sets
+				n := num + 1
+				if how == "stale" {
+					n = num
+				}
+				g, ok := w.bscG.hdr[n]
+				if !ok {
+					g = w.bscG.hdr[c18BscFirst]
+				}
+				hh := *g
+				if how == "forged" { // sealed by a key that is not the coinbase
+					cb := append([]byte{}, hh.Coinbase...)
+					cb[1] ^= 0x01
+					hh.Coinbase = cb
+				}
+				header = &hh
+				vbc = how == "next" && ok && n == num+1
+				if vbc && w.bscG.newcomer[n] {
+					bscNewcomer = true
+				}
+				break
+			}
 			idx := int(num+1) - int(w.bscUpd[0].Number.Uint64())
 			if how == "stale" {
 				idx--
@@ -1161,6 +1264,12 @@ func (w *c18World) update(r *Rec, f []string) (string, string) {
 	}
 	after := w.dump(w.ctx)
 	r.Count("update." + ty + "." + how + "." + res)
+	if bscNewcomer {
+		r.Count("update.bsc.sealed-by-newcomer." + res)
+	}
+	if tmRotation {
+		r.Count("update.tm.valset-changed." + res)
+	}
 	if os.Getenv("C18_DEBUG") != "" && res != "ok" {
 		fmt.Printf("DEBUG update %s %s vbc=%v auth=%v active=%v: %v\n    hist=%v\n", ty, how, vbc, authorised, active, perr, w.hist)
 	}
@@ -1232,11 +1341,11 @@ func c18CSOf(ty string, second bool) (string, string) {
 	switch ty {
 	case "tm":
 		return "tm", "tm"
-	case "bsc":
+	case "bsc": // the generated chain: the validator set rotates at the install epoch
 		if second {
-			return "bsc1", "bsc1"
+			return "bscr1", "bscr1"
 		}
-		return "bsc0", "bsc0"
+		return "bscr0", "bscr0"
 	case "eth":
 		if second {
 			return "eth1", "eth1"
@@ -1251,6 +1360,12 @@ func c18CSOf(ty string, second bool) (string, string) {
 
 func c18TimeFor(cs string) string {
 	switch {
+	case cs == "tmr0" || cs == "tmr1":
+		return cs
+	case strings.HasPrefix(cs, "bscr1"), strings.HasPrefix(cs, "bscr2"), strings.HasPrefix(cs, "bscr0"):
+		return cs[:5]
+	case strings.HasPrefix(cs, "bscr"):
+		return "bscr0"
 	case strings.HasPrefix(cs, "bsc1"):
 		return "bsc1"
 	case strings.HasPrefix(cs, "bsc"):
@@ -1277,10 +1392,25 @@ func c18Use(name, cs string, who string) []string {
 		h = append(h, "verify "+name+" latest", "update "+name+" "+cs+" tss:"+ot, "status "+name, "verify "+name+" latest",
 			"verify "+name+" addr:"+me, "verify "+name+" addr:"+ot, "update "+name+" "+cs+" tss:"+me, "update "+name+" "+other+" tss:"+me,
 			"verify "+name+" latest", "verify "+name+" addr:"+ot)
+	case strings.HasPrefix(cs, "tmr"):
+		// four updates, each signed by another validator set than the one before (NextValidatorsHash chain)
+		h = append(h, "time "+cs+" 60", "update "+name+" "+who+" next", "update "+name+" "+who+" next", "update "+name+" "+who+" next",
+			"update "+name+" "+who+" next", "status "+name, "update "+name+" "+who+" forged", "update "+name+" "+who+" stale")
 	case strings.HasPrefix(cs, "tm"):
 		// the time-delay boundary: 19 s after installation (tmd: too early), exactly 20 s (inclusive), then later
 		h = append(h, "verify "+name+" latest", "time now 19", "verify "+name+" latest", "time now 1", "verify "+name+" latest",
 			"time tm 30", "verify "+name+" latest", "update "+name+" "+who+" next", "status "+name, "verify "+name+" latest")
+	case strings.HasPrefix(cs, "bscr"):
+		// long enough to cross the validator-set switch (epoch + len/2) and to accept headers sealed by validators that
+		// joined with the set announced at the install epoch
+		h = append(h, "time "+c18TimeFor(cs)+" 200")
+		for i := 0; i < 7; i++ {
+			h = append(h, "update "+name+" "+who+" next")
+		}
+		h = append(h, "status "+name, "update "+name+" "+who+" forged", "update "+name+" "+who+" stale")
+	case strings.HasPrefix(cs, "eth"):
+		h = append(h, "time "+c18TimeFor(cs)+" 200", "update "+name+" "+who+" next", "update "+name+" "+who+" next", "update "+name+" "+who+" next", "update "+name+" "+who+" next", "status "+name,
+			"update "+name+" "+who+" forged", "update "+name+" "+who+" stale")
 	default:
 		h = append(h, "time "+c18TimeFor(cs)+" 200", "update "+name+" "+who+" next", "update "+name+" "+who+" next", "status "+name)
 	}
@@ -1336,6 +1466,20 @@ func c18Matrix(pow bool) [][]string {
 		out = append(out, append(append([]string{}, rel...), append([]string{"time tm 1", "create N0 tssA tss", "time eth1 1", "toggle N0 eth1p eth1"}, c18Use("N0", "eth1p", "r0")...)...))
 		out = append(out, append(append([]string{}, rel...), append([]string{"time eth0 1", "create N0 eth0p eth0", "time eth1 1", "upgrade N0 eth1p eth1"}, c18Use("N0", "eth1p", "r0")...)...))
 	}
+	// synthetic Tendermint chain with a validator set changing every block: created, toggled in, upgraded along the chain
+	out = append(out, append(append([]string{}, rel...), append([]string{"time tmr0 1", "create N0 tmr0 tmr0"}, c18Use("N0", "tmr0", "r0")...)...))
+	out = append(out, append(append([]string{}, rel...), append([]string{"time tm 1", "create N0 tssA tss", "time tmr0 1", "toggle N0 tmr0 tmr0"}, c18Use("N0", "tmr0", "r0")...)...))
+	out = append(out, append(append([]string{}, rel...), append([]string{"time bscr0 1", "create N0 bscr0 bscr0", "time tmr1 1", "toggle N0 tmr1 tmr1"}, c18Use("N0", "tmr1", "r0")...)...))
+	out = append(out, append(append([]string{}, rel...), append([]string{"time tmr0 1", "create N0 tmr0 tmr0", "time tmr0 60", "update N0 r0 next", "time tmr1 1", "upgrade N0 tmr1 tmr1"}, c18Use("N0", "tmr1", "r0")...)...))
+	// BSC main-net testdata (the announced set equals the installed one there): create, upgrade, toggled in and out
+	out = append(out, append(append([]string{}, rel...), append([]string{"time bsc0 1", "create N0 bsc0 bsc0"}, c18Use("N0", "bsc0", "r0")...)...))
+	out = append(out, append(append([]string{}, rel...), append([]string{"time bsc0 1", "create N0 bsc0 bsc0", "time bsc1 1", "upgrade N0 bsc1 bsc1"}, c18Use("N0", "bsc1", "r0")...)...))
+	out = append(out, append(append([]string{}, rel...), append([]string{"time tm 1", "create N0 tssA tss", "time bsc0 1", "toggle N0 bsc0 bsc0"}, c18Use("N0", "bsc0", "r0")...)...))
+	out = append(out, append(append([]string{}, rel...), append([]string{"time bscr0 1", "create N0 bscr0 bscr0", "time bsc0 1", "upgrade N0 bsc0 bsc0"}, c18Use("N0", "bsc0", "r0")...)...))
+	// generated chain: the third install point, upgrades along the chain after some updates
+	out = append(out, append(append([]string{}, rel...), append([]string{"time bscr2 1", "create N0 bscr2 bscr2"}, c18Use("N0", "bscr2", "r0")...)...))
+	out = append(out, append(append([]string{}, rel...), append([]string{"time bscr0 1", "create N0 bscr0 bscr0", "time bscr0 200", "update N0 r0 next", "update N0 r0 next", "update N0 r0 next", "time bscr2 1", "upgrade N0 bscr2 bscr2"}, c18Use("N0", "bscr2", "r0")...)...))
+	out = append(out, append(append([]string{}, rel...), "time bscr0 1", "create N0 bscr!stale bscr0", "status N0"))
 	for _, a := range c18Types { // a client under the chain's own name is never installed
 		ca, ka := c18CSOf(a, false)
 		out = append(out, append(append([]string{}, rel...), "time "+c18TimeFor(ca)+" 1", "create Nself "+ca+" "+ka, "status Nself", "upgrade Nself "+ca+" "+ka, "toggle Nself "+ca+" "+ka))
@@ -1379,13 +1523,19 @@ func (w *c18World) randomHistory(r *Rec) []string {
 	rng := r.Rng
 	names := []string{"N0", "N0", "N0", "N1", "N2", "Nmin", "Nmax"}
 	bad := []string{"Nshort", "Nslash", "Nlong", "Nspace", "Nblank", "Nself", "Nself"}
-	goodCS := []string{"tm", "tmd", "bsc0", "bsc1", "eth0", "eth1", "tssA", "tssB"}
-	badCS := []string{"tm!inv", "bsc!epoch", "bsc!seal", "bsc!inv", "bsc!h0", "bsc!noval", "eth!inv", "eth!h0", "tss!inv", "nil"}
-	allKS := []string{"tm", "bsc0", "bsc1", "eth0", "eth1", "tss", "nil"}
+	goodCS := []string{"tm", "tmd", "tmr0", "tmr1", "bsc0", "bsc1", "bscr0", "bscr1", "bscr2", "eth0", "eth1", "tssA", "tssB"}
+	badCS := []string{"tm!inv", "bsc!epoch", "bsc!seal", "bsc!inv", "bsc!h0", "bsc!noval", "bscr!stale", "eth!inv", "eth!h0", "tss!inv", "nil"}
+	allKS := []string{"tm", "bsc0", "bsc1", "bscr0", "bscr1", "eth0", "eth1", "tss", "nil"}
 	ksFor := func(cs string) string {
 		switch {
+		case cs == "tmr0" || cs == "tmr1":
+			return cs
 		case strings.HasPrefix(cs, "tm"):
 			return "tm"
+		case cs == "bscr0" || cs == "bscr1" || cs == "bscr2":
+			return cs
+		case strings.HasPrefix(cs, "bscr"):
+			return "bscr0"
 		case strings.HasPrefix(cs, "bsc1"):
 			return "bsc1"
 		case strings.HasPrefix(cs, "bsc"):
@@ -1435,6 +1585,9 @@ func (w *c18World) randomHistory(r *Rec) []string {
 					cs = cur
 					if rng.Intn(2) == 0 && (strings.HasPrefix(cur, "bsc") || strings.HasPrefix(cur, "eth")) {
 						cs = cur[:3] + "1"
+						if strings.HasPrefix(cur, "bscr") {
+							cs = []string{"bscr1", "bscr2"}[rng.Intn(2)]
+						}
 					}
 				}
 				if kind == "toggle" && same {
